@@ -483,11 +483,12 @@ impl Printer {
                 self.expr(v, PREC_ASSIGN);
                 l.set(self.line);
             }
-            Expr::Compound(t, op, v, l) => {
+            Expr::Compound(t, op, v, l, lg) => {
                 self.target(t);
                 self.out.push(' ');
                 self.out.push_str(op.text());
                 self.out.push_str("= ");
+                lg.set(self.line);
                 self.expr(v, BinOp::BitOr.prec());
                 l.set(self.line);
             }
